@@ -58,7 +58,7 @@ def table(draw, need=()):
             elif c == "amt":
                 row[c] = draw(st.sampled_from(["1.0", "2.0", "2.5", "10.0"]))      # a column read as floats
             elif c == "val":
-                row[c] = draw(st.sampled_from(["1", "2", "3", "10", "1", "2", "3", "10", "n/a"]))
+                row[c] = draw(st.sampled_from(["1", "2", "3", "10", "n/a"]))
             else:
                 row[c] = draw(st.sampled_from(["x", "y", "n/a", "x", "y", "n/a", "NA", "None", "nan"]))   # text, not missing
         rows.append(row)
